@@ -349,8 +349,32 @@ def r13_8(prog, rep):
             else:
                 rep.fail(rid, key, p.loc(c.get("line", line)), "a tee is set on a path to here and the file that becomes t->mfd is opened write-only (flags %#o): "
                          "data_cb()'s sendfile()/pread() from it fail, the second copy (the mail / the user's other file) stays empty" % fl)
-    if n < 4 or ntee < 1:
-        rep.broken_("rule=R13.8 expected >=4 open() sites feeding t->mfd, >=1 of them under a tee; found %d/%d" % (n, ntee))
+    # the tee copies with splice(2) into t->mfd and sendfile(2) into t->teeo / t->teee; both refuse (EINVAL) a descriptor opened with
+    # O_APPEND, and data_cb() takes the failure for end-of-file: on a path that sets a tee none of these files may be opened O_APPEND
+    O_APPEND = 0o2000       # <fcntl.h> on Linux
+    nap = 0
+    for b, i, x, line in cfg.all_elems():
+        tg = [lv(l) for l, kind, nn in writes(cfg.resolve(x)) if kind == "assign"]
+        if not any(t_.endswith(("->mfd", "->teeo", "->teee")) for t_ in tg):
+            continue
+        for c in calls(cfg.resolve(x)):
+            if c.get("fn") not in ("open", "openat", "open64"):
+                continue
+            hits, _ = backward_scan(cfg, (b, i), lambda bb, ii, xx: "hit" if isinstance(xx, dict) and sets_tee(xx) else None)
+            tee_here = bool(hits) or any(t_.endswith(("->teeo", "->teee")) for t_ in tg)
+            if not tee_here:
+                continue
+            nap += 1
+            fl = const_eval(p, c["a"][1] if c["fn"] != "openat" else c["a"][2])
+            key = "prep_task/tee-target-not-append#%d" % nap
+            if fl is not None and not fl & O_APPEND:
+                rep.ok(rid, key, p.loc(c.get("line", line)), "a descriptor the tee splices / sendfiles into is opened without O_APPEND", nontrivial=(nap == 1))
+            else:
+                rep.fail(rid, key, p.loc(c.get("line", line)), "%s is opened with O_APPEND (flags %s) and then used as the target of splice()/sendfile() by the tee: "
+                         "both fail with EINVAL on such a descriptor, data_cb() takes that for end-of-file and the file (and the mail) stay empty" % (
+                             [t_ for t_ in tg if t_.endswith(("->mfd", "->teeo", "->teee"))][0], "%#o" % fl if fl is not None else "?"))
+    if n < 4 or ntee < 1 or nap < 3:
+        rep.broken_("rule=R13.8 expected >=4 open() sites feeding t->mfd, >=1 of them under a tee, >=3 tee targets; found %d/%d/%d" % (n, ntee, nap))
 
 
 def r13_3(prog, rep):
